@@ -18,6 +18,9 @@ CONSTANTS
   Pads = TRUE
   Sample = FALSE
   Emit = FALSE
+  RdLimit = 16
+  BigDeltas <- NoDeltas
+  MaxBig = 0
   InitSample = 0
 INIT Init
 NEXT Next
